@@ -29,12 +29,13 @@ PROOF_NOTE = ('Trusted: Lean kernel; axioms propext/Classical.choice/Quot.sound 
 NOT_APPLICABLE = {}
 
 prop('C02', level='proof', modules=['Polyseed.Props.C02', 'Polyseed.Props.C02Phrase'], suites=['gf'],
+     api=dict(cone={'decode': 'status', 'decodex': 'status', 'decoden': 'status'}, weights=dict(errors=8, crafted=2, roundtrip=1), sessions=3),
      text='Theorems single_error, swap_error, unique_check_word, unique_word_at over ALL coefficient vectors, lifted to phrases (decodeExplicit_of_words, decodeExplicit_substituted, decodeExplicit_swapped / swap_error_coin: any string that normalises to the phrase with one word replaced or two unequal words exchanged is answered with the checksum status by explicit decoding, every coin) (XOR-linearity of Horner evaluation + kernel-evaluated facts about all 2048 field elements: mul2 = multiplication by x mod x^11+x^2+1, injective, no cycle of length 1..15). The C gf_elem_mul2 is compared with the model on all 2048 elements, gf_poly_eval on unit vectors/random/valid polynomials.',
      note=PROOF_NOTE + 'Modelled, not verified: gf.h (hand transcription); phrases are related to coefficient vectors by the word-lookup theorems of C07/C08.',
      technique='Lean 4 proof (linear algebra over GF(2048), decide +kernel over the field) + exhaustive correspondence on mul2',
      assumptions=['coefficients are < 2048 (word indices, coin < 2048)'])
 prop('C04', level='proof', modules=['Polyseed.Props.C04'], suites=[],
-     api=dict(cone={'keygen': 'result+ev:kdf'}),
+     api=dict(cone={'keygen': 'result+ev:kdf'}), extra='extra_kdf_threads',
      text='Theorems keygen_events (exactly one KDF call; password = 32-byte secret buffer; salt bytes spelled out; 10000 iterations; key length passed through), keygen_password (zero padding for canonical seeds), kdfArgs_inj (different secret/coin/birthday/features give different inputs), kdfArgs_path_independent. S-api records all seven KDF arguments of every call on the real code, compares the key buffer with what the stub wrote and the seed before/after, and compares KDF inputs of seeds reached by different paths (create, decode in any language, load, crypt twice).',
      note=PROOF_NOTE + 'Modelled, not verified: polyseed_keygen. That the library does not READ the key afterwards is invisible to a pattern comparison; only writes are observed.',
      technique='Lean 4 proof (event theorem + injectivity of the salt layout) + API-history correspondence with recorded KDF arguments',
@@ -58,7 +59,7 @@ prop('C18', level='proof', modules=['Polyseed.Props.C18', 'Polyseed.Props.C18Ser
      technique='Lean 4 proof (event theorems over all random/clock outputs) + API-history correspondence with function identities',
      assumptions=[])
 prop('C03', level='proof', modules=['Polyseed.Props.C03'], suites=['pack'],
-     api=dict(cone={'encode': 'result+ev:nfc'}, weights=dict(roundtrip=6, errors=1, storage=1)),
+     api=dict(cone={'encode': 'result'}, weights=dict(roundtrip=5, crafted=5, errors=1, storage=1)),
      text='Theorems dataToPoly_eq_spec (the chunk loops of polyseed_data_to_poly compute exactly the README layout: base-1024 digits of the 150-bit secret, one feature/birthday bit each, for EVERY well-formed seed - loops unrolled symbolically, 15 equations by omega), checkValue_eq_spec (word 1 = check value over GF(2)[x]/(x^11+x^2+1) as defined in the spec), encodeCoeffs_eq_spec (coin XORed into word 2), encodeTmp_eq_spec / encode_eq_spec (joined by the separator, NFC by the injected function iff the language composes), encode_pure, flags_as_published (kernel-evaluated on the regenerated registry), the published English vector. Correspondence: 165 single-bit seeds, pairs, random seeds through data_to_poly/poly_to_data; encode on the real code compared with an independent Python rendering of the format.',
      note=PROOF_NOTE + 'Modelled, not verified: gf.c, polyseed_encode. Spec (Model/Spec.lean) is written from README.md; "an independent implementation" is represented by Spec plus vlib/spec.py.',
      technique='Lean 4 proof (symbolic unrolling of the packing loops + omega; spec written from the README) + correspondence on packing and encode',
@@ -87,13 +88,13 @@ prop('C16', level='other', modules=['Polyseed.Props.C16', 'Polyseed.Props.C18Ser
      text='Theorems step_served (all wiping goes through the injected function: every wipe event of every call names lib.deps.memzero), free_wipes_first / freeEvents_wipe (a seed block - freed by the caller or by the library on its error paths - is wiped through the injected wipe over its whole size immediately before the injected free), decodeExplicit_wipes, decode_wipes (phrase copy, token pointers, polynomial on EVERY exit path; the detection loop index array whenever the loop ran), create_wipes, encode_wipes, crypt_wipes (polynomial, mask, normalised password), load_wipes. Runtime: memzero events of every op compared with the model (S-api), and the stack scan: 19 function/exit-path cases on a dedicated pre-patterned stack, scanned for secret bytes, indices (16/32/64-bit), phrase, password, mask, against a control run; gcc -O0/-O2 (thorough: + -O1/-O3 and clang -O0/-O2/-O3).', note=PROOF_NOTE, technique='Lean 4 theorem on the model wipe discipline + stack scan', assumptions=[],
      explanation='model: every temporary that receives secret-derived data is the target of an injected wipe of its full size on every exit path, and a freed seed block is wiped first (theorems over all inputs); code: memzero events of every op compared with the model, plus a scan of the dead stack after every API function x exit path x compiler setting')
 prop('C17', level='proof', modules=['Polyseed.Props.C17'], suites=[],
-     api=dict(cone={'encode': 'result', 'decode': 'result', 'decodex': 'result'}, weights=dict(roundtrip=6, variants=1), sessions=3), extra='extra_c17',
+     api=dict(cone={'encode': 'result', 'decode': 'result', 'decodex': 'result'}, weights=dict(roundtrip=5, crafted=3, variants=1), sessions=3), extra='extra_c17',
      text='Theorems maxPhrase_lt_all (for every registered language 16*longest word + 15*separator < POLYSEED_STR_SIZE: kernel-evaluated on the tables and the constant of the CURRENT tree), encodeTmp_length_le (every phrase, all seeds and coins, is at most that long), encode_no_overflow (the str_tmp overflow outcome of the model is unreachable), encode_output_fits (returned size = length of the output < buffer size), lazyNfkd_no_truncation. The extremal witness seed of every language is encoded on the real code under ASan with the caller buffer against a guard page, and decoded back.',
      note=PROOF_NOTE + 'The composed-form bound assumes the injected NFC does not lengthen a phrase (hypothesis hnfc; observed on every encode of the run).',
      technique='Lean 4 proof (kernel-evaluated per-position maxima of the regenerated tables) + extremal witness seeds on the real code',
      assumptions=['NFC composition does not lengthen a string'])
 prop('C01', level='proof', modules=['Polyseed.Props.C01'], suites=['pack'],
-     api=dict(cone={'encode': 'result', 'decode': 'result', 'decodex': 'result', 'decoden': 'result', 'create': 'result', 'load': 'result', 'dump': 'result', 'store': 'result', 'keygen': 'result+ev:kdf'}, weights=dict(roundtrip=8, crypt=1, storage=1)), extra='extra_norm',
+     api=dict(cone={'encode': 'result', 'decode': 'result', 'decodex': 'result', 'decoden': 'result', 'create': 'result', 'load': 'result', 'dump': 'result', 'store': 'result', 'keygen': 'result+ev:kdf'}, weights=dict(roundtrip=6, crafted=5, mixed=1, crypt=1, storage=1)), extra='extra_norm',
      text='Theorems decodeExplicit_encode (for EVERY canonical supported seed, coin < 2048 and language whose table passed the kernel check: explicit decoding of the encoded phrase returns OK and the identical seed), decode_encode (auto-detection: that seed with that language, or the multiple-languages status; nothing else), decodeExplicit_wrong_coin, normOK_ascii. They rest on polyToData_dataToPoly (packing round trip, all seeds), the GF(2048) algebra, splitN_joinWords, findAll_words (from the tables) and one explicit hypothesis NormOK about the injected normalisers; normOK_of_asciiCheck discharges it for the four languages whose REGENERATED tables are pure ASCII (English, Italian, Portuguese, Czech: kernel-checked asciiOk) from the dependency contract alone (normalisers are the identity on ASCII), so the round trip there has no hypothesis about Unicode data; for the other six NormOK is validated by exhaustive execution (S-norm). S-api performs round trips in all languages with real NFC/NFKD (utf8proc) and compares seeds, serialized bytes and KDF inputs.',
      note=PROOF_NOTE + 'NormOK (NFKD(NFC(phrase)) = words joined by single spaces) is a statement about Unicode data outside the repository: validated by exhaustive execution over all 20480 words and separators with two independent normalisers, not proved.',
      technique='Lean 4 proof (round trip through packing, checksum, tokeniser and table lookup; hypothesis NormOK) + API round trips with real normalisers',
@@ -104,7 +105,7 @@ prop('C07', level='proof', modules=['Polyseed.Props.C07'], suites=['tables', 'fi
      technique='Lean 4 proof by kernel evaluation over the regenerated tables (certificate checkers proved sound) + exhaustive normaliser execution',
      assumptions=['plain char signed (model parameter sgn = true); see C19'])
 prop('C08', level='proof', modules=['Polyseed.Props.C08'], suites=['find'],
-     api=dict(cone={'decode': 'status', 'decodex': 'status', 'decoden': 'status'}, weights=dict(variants=8, badtokens=4, roundtrip=1)),
+     api=dict(cone={'decode': 'status', 'decodex': 'status', 'decoden': 'status'}, weights=dict(variants=8, badtokens=4, crafted=2, roundtrip=1)),
      text='Theorem find_iff_rule: in ALL ten languages, for EVERY token (NUL-free byte string) and every index, the lookup returns that index if and only if Rule accepts the token for that word, where Rule (written without the code) is: exact word; or, in the six abbreviating languages, a prefix of at least four letters; compared on the accent-stripped forms in Spanish and French. Built from: comparer_zero_iff (zero sets of the four comparators; compare_*_noaccent = compare_* on stripped strings, an identity), findWord_sound (bsearch / linear search return only indices that compare equal), and the per-table bsearch decision-tree certificate extended to EVERY admissible abbreviation of every word (kernel-evaluated, ~1.5 min per list in parallel). Corollaries find_only_by_rule, find_exact_iff, too_short, continues_otherwise. S-find replays every prefix length x accent subset x continuation per word on the real code against the model and an independent Python rendering of the rule; S-api does it through the API with real NFKD. Open finding D6: strip removes every byte >= 0x80, not only combining accents - stated in the theorem as it is, listed as KNOWN-FINDING.',
      note=PROOF_NOTE + 'strip = removal of all bytes >= 0x80; it coincides with "accents dropped" on NFKD Latin text only (D6).',
      technique='Lean 4 proof (comparator zero sets + search soundness + kernel-evaluated decision-tree certificate over all admissible abbreviations) + exhaustive per-word correspondence',
@@ -113,7 +114,7 @@ prop('C19', level='other', modules=['Polyseed.Props.C19'], suites=[], extra='ext
      text='Theorems rank_is_signed_order / sgnCmp_is_signed / isNeg_is_signed / isNeg_is_unsigned / rank_facts: after the repair of D2 the model has NO signedness parameter (every comparison goes through the unsigned byte value, as compare_char and IS_NON_ASCII do in the code) and the explicit order is exactly the signed-char order the shipped sorted lists were built for. Runtime (S-sign): the same unit and API scripts (all languages; composed, decomposed, abbreviated, unaccented phrases; non-ASCII passwords) on a -fsigned-char and a -funsigned-char build, each compared with the one model and with each other - a difference is reported with the failing input.', note=PROOF_NOTE, technique='Lean 4 theorem about the model parameter + two builds', assumptions=[],
      explanation='two char-signedness builds of the tree run the same scripts; their transcripts are compared with each other and with the model')
 prop('C09', level='proof', modules=['Polyseed.Props.C09'], suites=['detect'],
-     api=dict(cone={'decode': 'result', 'decodex': 'result', 'decoden': 'result'}, weights=dict(badtokens=5, mixed=4, variants=3, faults=2, garbage=2, roundtrip=1)),
+     api=dict(cone={'decode': 'result', 'decodex': 'result', 'decoden': 'result'}, weights=dict(badtokens=5, mixed=4, variants=3, crafted=3, faults=2, garbage=2, roundtrip=1)),
      text='Theorems phraseDecode_cases (auto-detection = case split on the languages that recognise ALL tokens: none/one/several -> language error/OK with that language/multiple languages, regardless of checksums), decode_eq_explicit (on success: exactly the outcome, state and events of explicit decoding with that language), decode_status and decodeExplicit_status (precedence: word count, language, checksum, memory, unsupported), splitN_inv / strSplit_16 (16 is returned only for exactly 16 space-free tokens joined by single spaces plus at most one trailing space). All generic in the language list. Correspondence: phrase_decode on token lists with common words, foreign/empty/garbage tokens; API decodes with doubled/leading/trailing/ideographic separators, 15/17 tokens, failing allocators.',
      note=PROOF_NOTE + 'For non-ASCII input the tokenised string is what the injected NFKD returns (may truncate to the buffer size): the dependency contract.',
      technique='Lean 4 proof (generic case analysis of the detection loop and tokeniser inversion) + correspondence on phrase_decode and API decodes',
@@ -125,11 +126,14 @@ prop('C06', level='proof', modules=['Polyseed.Props.C06'], suites=['store'],
      technique='Lean 4 proof (iff-characterisation over all 32-byte lists) + correspondence on store/load',
      assumptions=['buffers are 32 bytes; allocation outcome is an explicit hypothesis of each theorem'])
 prop('C10', level='proof', modules=['Polyseed.Props.C10'], suites=['feat'],
+     api=dict(cone={'create': 'status', 'decode': 'status', 'decodex': 'status', 'decoden': 'status', 'load': 'status', 'features': 'result', 'feature': 'result'},
+              weights=dict(inject=3, unsupported=5, storage=2, roundtrip=1, crypt=1, queries=1), sessions=3),
      text='Theorems enable_spec (all arguments, higher bits ignored, return value = number of user bits), enable_last_wins, supported_iff (against a bit-level spec written without the code formula, all 8 masks x 32 values by kernel evaluation), create/decode/load unsupported_iff, create_features, getFeature_spec, crypt_user_bits. Correspondence: 17 enabling arguments x 32 values x supported/create/get_feature/is_encrypted, enabling sequences.',
      note=PROOF_NOTE + 'Modelled, not verified: features.c/.h and the feature checks inside polyseed.c.',
      technique='Lean 4 proof (mask algebra, decide +kernel over 8x32) + exhaustive correspondence on the feature entry points',
      assumptions=['feature values held by seeds are 5-bit (proved for every constructor in C13)'])
 prop('C11', level='proof', modules=['Polyseed.Props.C11'], suites=['bday'],
+     api=dict(cone={'create': 'result', 'birthday': 'result'}, weights=dict(queries=3, roundtrip=2, storage=1, crypt=1), sessions=2),
      text='Theorems birthday_in_range (B <= t < B + 2629746 on the whole range), birthday_clamped, birthday_never_future (every t < 2^64), birthday_form (no 64-bit overflow), create_birthday, crypt/store-load preservation. birthday_encode/decode are compared with the model on all 1025 month boundaries +-1, the epoch, 0, 2^31/2^32/2^63/2^64 neighbours and random values.',
      note=PROOF_NOTE + 'Modelled, not verified: birthday.h and the clock call in polyseed_create.',
      technique='Lean 4 proof (omega over all 64-bit clock values) + boundary-exhaustive correspondence',
@@ -198,7 +202,7 @@ def run_suite(ctx, pid, S, viol, stats):
 
 
 # C13 says EVERY output equals the abstract model's: an output oracle of a more specific property is a C13 witness too
-ALSO = {'C13': ('C01', 'C03', 'C04', 'C06', 'C10', 'C11', 'C12')}
+ALSO = {'C13': ('C01', 'C02', 'C03', 'C04', 'C05', 'C06', 'C08', 'C09', 'C10', 'C11', 'C12')}
 
 
 def run_api(ctx, pid, viol, stats, weights=None, sessions=None, nops=None, variants=('asan',), cone=None, tag='api'):
@@ -247,7 +251,10 @@ def run_api(ctx, pid, viol, stats, weights=None, sessions=None, nops=None, varia
                                       script=sess.script[-700:], suite=tag, variant=variant, found_input=inside))
             for (p, key, msg, script) in g.viol:
                 if p == pid or p in ALSO.get(pid, ()):
-                    viol.append(Violation('oracle', key, msg, script=script[-700:], suite=tag, variant=variant, found_input=True))
+                    # fewer bytes wiped than the model's temporaries hold is a broken correspondence (the wipe theorems no longer
+                    # describe the code), not yet a failing input: residue on the dead stack (S-stack) is
+                    shape = key.startswith('wipe-sizes')
+                    viol.append(Violation('correspondence' if shape else 'oracle', key, msg, script=script[-700:], suite=tag, variant=variant, found_input=not shape))
             for (i, cb, mb) in session.diff_with_model(sess, cone)[:5]:
                 opname = cb[0].split()[1] if len(cb[0].split()) > 1 else '?'
                 st['mismatches'] += 1
@@ -403,14 +410,10 @@ def extra_prefix_words(ctx, pid, viol, stats):
     extra_norm(ctx, pid, viol, stats)
 
 
-def extra_sign(ctx, pid, viol, stats):
-    """S-sign: the same scripts against a -fsigned-char and a -funsigned-char build of the tree; each is compared
-    with the model, and the two real transcripts are compared with each other: a difference IS the failing input."""
-    t0 = time.time()
-    st = stats.setdefault('sign', dict(evaluations=0, distinct=set(), samples=[], variants=['asan', 'unsigned'], wall=0.0, exhaustive=False, mismatches=0, hist={},
-                                       note='find/pdecode unit scripts and API scripts (all languages; composed, decomposed, abbreviated, unaccented phrases; non-ASCII passwords) run on both char signedness builds'))
+def broad_script(ctx, rnd):
+    """unit lookups (words, abbreviations, unaccented forms in every language) and API calls (a seed encoded and decoded in
+    every language in composed, decomposed and plain-joined form; non-ASCII passwords; keygen; store; free)"""
     Ls = ctx.langs
-    rnd = ctx.rnd('sign')
     script = [suites.INJECT, 'features 7']
     # unit level: words, abbreviations, unaccented forms in every language
     for li in range(Ls.n):
@@ -442,6 +445,16 @@ def extra_sign(ctx, pid, viol, stats):
             script.append('store 0')
             script.append('keygen 0 0 32')
         script.append('free 0')
+    return script
+
+
+def extra_sign(ctx, pid, viol, stats):
+    """S-sign: the same scripts against a -fsigned-char and a -funsigned-char build of the tree; each is compared
+    with the model, and the two real transcripts are compared with each other: a difference IS the failing input."""
+    t0 = time.time()
+    st = stats.setdefault('sign', dict(evaluations=0, distinct=set(), samples=[], variants=['asan', 'unsigned'], wall=0.0, exhaustive=False, mismatches=0, hist={},
+                                       note='find/pdecode unit scripts and API scripts (all languages; composed, decomposed, abbreviated, unaccented phrases; non-ASCII passwords) run on both char signedness builds'))
+    script = broad_script(ctx, ctx.rnd('sign'))
     results = {}
     for variant in ('asan', 'unsigned'):
         res = core.run_pair(ctx.tree, variant, script, 'sign', cone=RESULT)
@@ -540,37 +553,52 @@ def extra_stack(ctx, pid, viol, stats):
     import re
     t0 = time.time()
     st = stats.setdefault('stack', dict(evaluations=0, distinct=set(), samples=[], variants=[], wall=0.0, exhaustive=True, mismatches=0, hist={},
-                                        note='19 function/exit-path cases x 7 residue kinds per compiler setting; residue present in the control run (API call skipped) does not count'))
+                                        note='20 function/exit-path cases (incl. the multiple-languages exit) x 7 residue kinds per compiler setting and language (English, a composing accented language, Japanese; all ten in the thorough tier), real NFC/NFKD answered from a recorded table so that the normaliser itself leaves nothing on the scanned stack; phrase and password scanned as given and in NFKD form; residue present in the control run (API call skipped) does not count'))
     settings = [('gcc', '-O2'), ('gcc', '-O0')]
     if ctx.thorough:
         settings += [('gcc', '-O3'), ('gcc', '-O1'), ('clang', '-O0'), ('clang', '-O2'), ('clang', '-O3')]
-    for cc, opt in settings:
+    nl = ctx.langs.n
+    composing = [i for i in range(nl) if ctx.langs.langs[i].get('compose')]
+    for si, (cc, opt) in enumerate(settings):
         name = 'stackscan-%s%s' % (cc, opt)
-        exe, err = core.build_aux(ctx.tree, name, 'stackscan.c', cc, [opt, '-DNDEBUG'], ['-Wl,-z,now'])
+        exe, err = core.build_aux(ctx.tree, name, 'stackscan.c', cc, [opt, '-DNDEBUG'], ['-Wl,-z,now', '-lutf8proc'])
         st['variants'].append('%s %s' % (cc, opt))
         if err:
             viol.append(Violation('crash', 'stackscan-build', err, suite='stack'))
             continue
-        r = core.run([exe], stderr=__import__('subprocess').PIPE)
-        if r.returncode != 0:
-            viol.append(Violation('crash', 'stackscan-crash', 'stack scan program (%s %s) exited with %d: %s' % (cc, opt, r.returncode, (r.stderr or '')[-800:]), suite='stack', found_input=True,
-                                  script=['harness/stackscan.c built with %s %s' % (cc, opt)]))
-            continue
-        for line in r.stdout.split('\n'):
-            m = re.match(r'SCAN case=(\S+) kind=(\S+) hits=(\d+) control=(\d+) first=(-?\d+)', line)
-            if not m:
+        # languages: all of them in the thorough tier for the first two settings; otherwise English, one composing language
+        # with accents and one with an ideographic separator
+        if ctx.thorough and si < 2:
+            langs = list(range(nl))
+        else:
+            langs = sorted(set([0] + composing[:1] + composing[-1:]))
+        for li in langs:
+            r = core.run([exe, str(li)], stderr=__import__('subprocess').PIPE)
+            if r.returncode != 0:
+                viol.append(Violation('crash', 'stackscan-crash', 'stack scan program (%s %s, language %d) exited with %d: %s' % (cc, opt, li, r.returncode, (r.stderr or '')[-800:]), suite='stack', found_input=True,
+                                      script=['harness/stackscan.c built with %s %s, argument %d' % (cc, opt, li)]))
                 continue
-            st['evaluations'] += 1
-            case, kind, hits, ctl = m.group(1), m.group(2), int(m.group(3)), int(m.group(4))
-            st['distinct'].add('%s %s %s %s' % (cc, opt, case, kind))
-            if hits > ctl:
-                k = 'idx' if kind.startswith('indices') else kind
-                viol.append(Violation('oracle', 'stack:%s:%s' % (case.split('/')[0], k),
-                                      'after polyseed_%s returned (%s %s), the dead stack still holds %s (%d window matches, %d in the control run without the call), first at stack offset %s' % (
-                                          case, cc, opt, {'idx': 'the 16 word indices'}.get(k, 'the ' + kind), hits, ctl, m.group(5)),
-                                      script=['cc=%s opt=%s' % (cc, opt), 'case=%s' % case, 'kind=%s' % kind, line], suite='stack', variant='%s %s' % (cc, opt), found_input=True))
-        if not st['samples']:
-            st['samples'].append([l for l in r.stdout.split('\n') if 'decode/ok' in l][:4])
+            for line in r.stdout.split('\n'):
+                m = re.match(r'NORMALISATIONS recorded=(\d+) untabled=(\d+)', line)
+                if m:
+                    st['hist']['normalisations answered from the recorded table'] = st['hist'].get('normalisations answered from the recorded table', 0) + int(m.group(1))
+                    st['hist']['normalisations not in the table (identity used)'] = st['hist'].get('normalisations not in the table (identity used)', 0) + int(m.group(2))
+                m = re.match(r'SCAN case=(\S+) kind=(\S+) hits=(\d+) control=(\d+) first=(-?\d+)', line)
+                if not m:
+                    continue
+                st['evaluations'] += 1
+                case, kind, hits, ctl = m.group(1), m.group(2), int(m.group(3)), int(m.group(4))
+                st['distinct'].add('%s %s %d %s %s' % (cc, opt, li, case, kind))
+                if hits > ctl:
+                    k = 'idx' if kind.startswith('indices') else kind
+                    viol.append(Violation('oracle', 'stack:%s:%s' % (case.split('/')[0], k),
+                                          'after polyseed_%s returned (%s %s, language %d), the dead stack still holds %s (%d window matches, %d in the control run without the call), first at stack offset %s' % (
+                                              case, cc, opt, li, {'idx': 'the 16 word indices'}.get(k, 'the ' + kind), hits, ctl, m.group(5)),
+                                          script=['cc=%s opt=%s' % (cc, opt), 'language=%d' % li, 'case=%s' % case, 'kind=%s' % kind, line,
+                                                  'rebuild: %s %s -DNDEBUG -w -DPOLYSEED_STATIC -I<tree>/include -iquote <tree>/src harness/stackscan.c <tree>/src/*.c -Wl,-z,now -lutf8proc; run with argument %d' % (cc, opt, li)],
+                                          suite='stack', variant='%s %s' % (cc, opt), found_input=True))
+            if not st['samples']:
+                st['samples'].append([l for l in r.stdout.split('\n') if 'decode/ok' in l][:4])
     st['wall'] = time.time() - t0
 
 
@@ -642,6 +670,70 @@ def symbol_inventory(ctx, viol, st, want_writable=True, want_undef=True):
     return writable, undef
 
 
+def watch_run(ctx, viol, st):
+    """S-watch: every writable static of the library objects (found with objdump in the objects built from the tree, located with
+    nm in a -no-pie harness) is snapshotted before and compared after EVERY operation of a broad script.  An operation other
+    than inject/enable_features that changes one writes shared state: two threads making that call race (C20) - reported with
+    the call as the failing input.  A writable static outside the known four is accepted as configuration state when the
+    run shows it written by inject/enable_features and by nothing else; one that nothing in the run writes is reported as
+    uncovered (no failing input)."""
+    import re
+    sub = dict(evaluations=0, distinct=set(), hist={})
+    writable, _ = symbol_inventory(ctx, viol, sub, want_writable=False, want_undef=False)
+    st['hist']['writable symbols'] = sorted(writable)
+    exe, err = ctx.tree.harness('watch')
+    if err:
+        viol.append(Violation('crash', 'watch-build', err, suite='watch'))
+        return
+    regions = []
+    for line in core.run(['nm', '-S', '--defined-only', exe]).stdout.split('\n'):
+        p = line.split()
+        if len(p) == 4 and p[2] in 'bBdD' and p[3] in writable and int(p[1], 16) > 0:
+            regions.append((p[0], int(p[1], 16), p[3]))
+    located = {r[2] for r in regions}
+    script = ['!watch %s %d %s' % r for r in regions]
+    rnd = ctx.rnd('watch')
+    script += broad_script(ctx, rnd)
+    Ls = ctx.langs
+    script += ['features 0', 'create 2 0', 'store 2', 'birthday 2', 'feature 2 7', 'isenc 2', 'features 5', 'create 3 5', 'create 4 2',
+               'inject 21 22 23 24 25 26 27 28', 'create 5 1', 'encode 5 0 7', 'keygen 5 3 16', 'free 5', 'inject 11 12 13 14 15 0 0 0', 'create 5 0', 'free 5',
+               suites.INJECT, 'decode 6 0 ' + b'not a phrase at all'.hex(), 'decodex 6 0 1 ' + 'あ い'.encode().hex(), 'load 6 ' + bytes(32).hex(),
+               'numlangs', 'langname 3', 'free 2', 'free 3', 'free null']
+    rc, header, ops, errtxt = core.run_c_only(ctx.tree, 'watch', script, 'watch')
+    st['evaluations'] += len(ops)
+    st['hist']['watched statics'] = ['%s (%d bytes)' % (r[2], r[1]) for r in regions]
+    cfg = set()
+    for h in header:
+        m = re.match(r'# config-write (\S+)', h)
+        if m:
+            cfg.add(m.group(1))
+    st['hist']['statics written by inject/enable_features'] = sorted(cfg)
+    if rc != 0:
+        viol.append(Violation('crash', 'watch-crash', 'watch harness exited with %d: %s' % (rc, (errtxt or '')[-1200:]), script=script[-60:], suite='watch'))
+    written = {}
+    for i, op in enumerate(ops):
+        for c in op.complaints:
+            m = re.match(r'! global-write name=(\S+) offset=(\d+) op=(\S+)', c)
+            if m and m.group(1) not in written:
+                written[m.group(1)] = (op.head, i)
+    st['hist']['statics written by other calls'] = sorted(written)
+    for name, (head, i) in sorted(written.items()):
+        viol.append(Violation('oracle', 'global-write:' + name,
+                              'the call "%s" writes the library-wide static "%s": two threads making this call on their own seeds write the same memory (data race), and the library state is no longer just the injected table and the feature mask' % (head[:160], name),
+                              script=[l for l in script if l.startswith('!watch')] + [suites.INJECT, 'features 7'] + [l for l in script if not l.startswith('!watch')][max(0, i - 6):i + 3],
+                              suite='watch', variant='watch', found_input=True))
+    for w in sorted(writable - WRITABLE_ALLOWED):
+        if w in written:
+            continue
+        if w in cfg:
+            st['hist'].setdefault('accepted as configuration state', []).append(w)
+            continue
+        viol.append(Violation('correspondence', 'writable-symbol:' + w,
+                              'the library objects contain writable static storage "%s" besides the injected-dependency table, the feature mask, the GF table and the registry, and no call of the watch run wrote it%s: shared state that the model (and thread_serial) does not cover' % (
+                                  w, '' if w in located else ' (it could not be located in the harness binary)'),
+                              script=['objdump -t <objects built from the tree>', w], suite='syms'))
+
+
 def extra_threads(ctx, pid, viol, stats):
     """S-tsan + S-syms"""
     import re
@@ -649,7 +741,7 @@ def extra_threads(ctx, pid, viol, stats):
     t0 = time.time()
     st = stats.setdefault('threads', dict(evaluations=0, distinct=set(), samples=[], variants=['tsan'], wall=0.0, exhaustive=False, mismatches=0, hist={},
                                           note='N threads on their own seeds under ThreadSanitizer (harness/threads.c): per-thread digest of every observable result, serial vs concurrent; yields injected through the dependency stubs; plus the writable-symbol inventory of the objects'))
-    symbol_inventory(ctx, viol, st, want_writable=True, want_undef=False)
+    watch_run(ctx, viol, st)
     exe, err = core.build_aux(ctx.tree, 'threads-tsan', 'threads.c', 'gcc', ['-O1', '-g', '-fsanitize=thread', '-DNDEBUG'], ['-lpthread', '-lutf8proc'])
     if err:
         viol.append(Violation('crash', 'threads-build', err, suite='threads'))
@@ -677,6 +769,35 @@ def extra_threads(ctx, pid, viol, stats):
                                   script=['harness/threads.c %d %d' % (nt, iters)], suite='threads', variant='tsan', found_input=True))
         if not st['samples']:
             st['samples'].append(r.stdout.split('\n')[:3])
+    st['wall'] = time.time() - t0
+
+
+def extra_kdf_threads(ctx, pid, viol, stats):
+    """C04 under concurrency: the password and salt handed to the injected KDF must not change while the KDF runs (the stub
+    copies them on entry, yields, compares): a shared static salt or password buffer shows up here (harness/threads.c)"""
+    import re
+    import subprocess
+    t0 = time.time()
+    st = stats.setdefault('kdf-threads', dict(evaluations=0, distinct=set(), samples=[], variants=['tsan'], wall=0.0, exhaustive=False, mismatches=0, hist={},
+                                              note='N threads derive keys and encrypt their own seeds concurrently; the KDF stub checks that its inputs are stable during the call'))
+    exe, err = core.build_aux(ctx.tree, 'threads-tsan', 'threads.c', 'gcc', ['-O1', '-g', '-fsanitize=thread', '-DNDEBUG'], ['-lpthread', '-lutf8proc'])
+    if err:
+        viol.append(Violation('crash', 'threads-build', err, suite='kdf-threads'))
+        return
+    for nt, iters in ([(8, 20)] if not ctx.thorough else [(8, 100), (32, 30), (3, 300)]):
+        env = dict(os.environ, TSAN_OPTIONS='halt_on_error=0:exitcode=0:report_bugs=0')
+        r = subprocess.run([exe, str(nt), str(iters)], stdout=subprocess.PIPE, stderr=subprocess.PIPE, text=True, env=env)
+        st['evaluations'] += nt * iters
+        m = re.search(r'KDF-UNSTABLE (\d+)', r.stdout)
+        st['hist']['%d threads x %d iterations' % (nt, iters)] = m.group(0) if m else 'no-result (exit %d)' % r.returncode
+        st['distinct'].add('%dx%d' % (nt, iters))
+        if m and int(m.group(1)) > 0:
+            viol.append(Violation('oracle', 'kdf-input-unstable', 'with %d threads deriving keys from their own seeds, the password or salt handed to the injected KDF changed %s time(s) WHILE the KDF was running: the inputs of one derivation are overwritten by another call' % (nt, m.group(1)),
+                                  script=['harness/threads.c %d %d' % (nt, iters), 'look for KDF-UNSTABLE in the output'], suite='kdf-threads', variant='tsan', found_input=True))
+        elif not m:
+            viol.append(Violation('crash', 'threads-crash', 'thread harness exited with %d: %s' % (r.returncode, r.stderr[-1200:]), script=['harness/threads.c %d %d' % (nt, iters)], suite='kdf-threads'))
+    if not st['samples']:
+        st['samples'].append(['harness/threads.c 8 20'])
     st['wall'] = time.time() - t0
 
 
